@@ -107,12 +107,16 @@ def strategy_case(draw):
         case["mode_size"] = ms
     elif op == "to_qtt_ttm":
         d = draw(st.integers(1, 3))
-        N = draw(gen.modes(d, d, (1, 2, 4, 8), maxnumel=64, distinct_bias=0.2))
+        ms = draw(st.sampled_from([2, 2, 3]))
+        N = draw(gen.modes(d, d, (1, 2, 4, 8) if ms == 2 else (1, 3, 9), maxnumel=64 if ms == 2 else 81, distinct_bias=0.2))
+        if ms == 3 and draw(st.integers(0, 3)) == 0:
+            N = [243]       # 3**5: math.log(243, 3) = 4.999...
+            d = 1
         if all(n == 1 for n in N):
-            N[0] = 2        # an all-ones operator has no QTT shape; whether it must raise is not C10's business
+            N[0] = ms       # an all-ones operator has no QTT shape; whether it must raise is not C10's business
         case["N"], case["M"] = N, list(N)
         case["R"] = draw(gen.ranks(d, 3))
-        case["mode_size"] = 2
+        case["mode_size"] = ms
     return case
 
 
